@@ -131,6 +131,14 @@ def run(tier: str) -> int:
     c = Atoms("CuAgAu", positions=rs2.rand(3, 3), cell=[20, 20, 20], pbc=False)
     c.calc = Well(0.8, 0.5)
     systems.append(("quartic", c))
+    # a position-dependent constraint (a rigid bond that rotates): the constraint force must be fed back into the
+    # momenta for the trajectory to be reversible and second order
+    from ase.constraints import FixBondLength
+
+    d = Atoms("Cu4", positions=[[0, 0, 0], [2.6, 0, 0], [1.3, 2.2, 0], [1.3, 0.8, 2.1]], cell=[20, 20, 20], pbc=False)
+    d.set_constraint(FixBondLength(0, 1))
+    d.calc = EMT()
+    systems.append(("emt_rigid_bond", d))
     nreal = 0
     for name, at in systems:
         from ase.md.velocitydistribution import MaxwellBoltzmannDistribution
